@@ -1,5 +1,5 @@
 SPECIFICATION Spec
-CONSTANTS Configs <- CfgTiny AddProgs <- P2 NClosers = 2 AllowCancel = TRUE ConsKinds <- Slow MaxNow = 1
+CONSTANTS Configs <- CfgTiny AddProgs <- P11 NClosers = 2 AllowCancel = TRUE ConsKinds <- Slow MaxNow = 1
   AdvIdleOnly = FALSE UseMonitor = TRUE CloseFix = TRUE Variant = "ok"
 INVARIANTS MonitorOK NoWedge SignalsLeAdds WaitGroupExact CloseWaited NoLostAdd TypeOK
 CHECK_DEADLOCK FALSE
